@@ -12,7 +12,7 @@ from .astutil import clone
 
 from .index import FUNC_TYPES, FuncInfo, dotted, walk_no_nested
 
-MAX_STMTS = 60
+MAX_STMTS = 160
 
 
 class _Subst(ast.NodeTransformer):
@@ -31,6 +31,26 @@ class _Subst(ast.NodeTransformer):
 
     def visit_arg(self, node):
         return node
+
+    def _comp(self, node):
+        shadow = {x.id for g in node.generators for x in ast.walk(g.target) if isinstance(x, ast.Name)}
+        saved = (self.mapping, self.rename)
+        self.mapping = {k: v for k, v in self.mapping.items() if k not in shadow}
+        self.rename = {k: v for k, v in self.rename.items() if k not in shadow}
+        try:
+            # the first iterable is evaluated in the enclosing scope
+            first = node.generators[0].iter
+            self.mapping, self.rename = saved
+            new_first = self.visit(first)
+            self.mapping = {k: v for k, v in saved[0].items() if k not in shadow}
+            self.rename = {k: v for k, v in saved[1].items() if k not in shadow}
+            self.generic_visit(node)
+            node.generators[0].iter = new_first
+        finally:
+            self.mapping, self.rename = saved
+        return node
+
+    visit_ListComp = visit_SetComp = visit_GeneratorExp = visit_DictComp = _comp
 
     def visit_FunctionDef(self, node):
         return node  # nested defs are not touched
@@ -198,7 +218,12 @@ def _expand(ctx, finfo, call, cal, k, assign_targets=()):
     pre = []
     subst = {}
     # a parameter that is assigned inside the helper, or whose argument is not a simple expression, gets a local copy
-    assigned = {n.id for n in walk_no_nested(cal.node) if isinstance(n, ast.Name) and isinstance(n.ctx, (ast.Store, ast.Del))}
+    comp_scoped = set()
+    for n in walk_no_nested(cal.node):
+        if isinstance(n, (ast.ListComp, ast.SetComp, ast.GeneratorExp, ast.DictComp)):
+            for g in n.generators:
+                comp_scoped.update(id(x) for x in ast.walk(g.target))
+    assigned = {n.id for n in walk_no_nested(cal.node) if isinstance(n, ast.Name) and isinstance(n.ctx, (ast.Store, ast.Del)) and id(n) not in comp_scoped}
     for p, a in mapping.items():
         simple = isinstance(a, (ast.Name, ast.Constant)) or (isinstance(a, ast.Attribute) and dotted(a) is not None)
         if p in assigned or not simple:
